@@ -1,13 +1,14 @@
 """Per-property configuration of tools/check.py: one file per property under tools/propcfg/Cxx.py defining CFG and META."""
 import importlib.util, os, glob
 
-PROPS, META = {}, {}
+PROPS, META, ALL = {}, {}, {}   # PROPS/META: enabled (claimed) properties; ALL: every configured one (runnable)
 _d = os.path.join(os.path.dirname(os.path.abspath(__file__)), "propcfg")
 for _p in sorted(glob.glob(os.path.join(_d, "C*.py"))):
     _id = os.path.splitext(os.path.basename(_p))[0]
     _s = importlib.util.spec_from_file_location("propcfg_" + _id, _p)
     _m = importlib.util.module_from_spec(_s)
     _s.loader.exec_module(_m)
+    ALL[_id] = _m.CFG
     if getattr(_m, "ENABLED", True):
         PROPS[_id] = _m.CFG
         META[_id] = _m.META
